@@ -397,9 +397,9 @@ B("C16.legend_grammar", ["C16"], UTIL, "bounded_legend_grammar", "parser::parse_
   "header variants, 1..3 'ident = {css}' entries (any css without braces, incl. newlines and quotes), separators with/without blanks, trailing blanks: "
   "entries in order; malformed legends answered without panic",
   "4 headers x 3 lengths x 4 identifiers x 6 declarations x 4 separators x 4 trailers = 4608 legends + 5 malformed (pom is outside Kani and Verus)")
-B("C17.legend_cut_line_endings", ["C16", "C17"], CB, "bounded_legend_cut_and_line_endings", "From<&str> for CellBuffer / parse_css_legend / legend_css",
+B("C17.legend_cut_line_endings", ["C16", "C17", "C01"], CB, "bounded_legend_cut_and_line_endings", "From<&str> for CellBuffer / parse_css_legend / legend_css",
   "the legend is never drawn, the drawing before it is untouched, the rules come out in order, and CRLF input gives the same cells and rules as LF",
-  "4 drawings x 3 legends x 4 trailing-blank variants x {LF, CRLF}")
+  "6 drawings (incl. box-drawing and wide characters) x 5 legends (incl. blank lines inside) x 4 trailing-blank variants x {LF, CRLF}")
 B("C16.tag_grammar", ["C16", "C08"], UTIL, "bounded_tag_grammar", "parser::parse_css_tag", "'{ident(,ident)*}' accepted with its names; 12 malformed variants rejected", "5 + 13 strings")
 B("T6.string_and_cell_buffer", ["C04", "C17"], CB, "bounded_string_and_cell_buffer", "From<&str> for StringBuffer / From<StringBuffer> for CellBuffer",
   "cells = the non-blank characters at the column where their display columns start (wide = 2 columns); LF/CRLF, trailing blanks and blank lines add nothing",
@@ -575,3 +575,7 @@ K("C10.fragment_span_merge", ["C10", "C09", "C04"], FSPAN, "check_fragment_span_
   "Some exactly when Fragment::merge is Some; the fragment is that result; the spans are concatenated in order (no source cell lost)",
   kind="bounded", bound="one-cell spans; cells symbolic", timeout=300,
   assumes=["<Fragment as Merge>::merge replaced by an opaque result (its contract: C03.fragment_merge_dispatch)"])
+
+B("C17.trailing_blanks", ["C17", "C15"], CB, "bounded_trailing_blanks", "From<&str> for CellBuffer (StringBuffer, escape_line, cell filter)",
+  "trailing spaces / tabs, with LF or CRLF, change neither the cells nor the quoted texts of a row, also with an odd number of quotes",
+  "all rows of <= 4 tokens over {a, \", -, space, wide CJK} x 4 trailing-blank variants x {LF, CRLF}")
